@@ -5,13 +5,16 @@ from common import standard_prologue, run_hx, run_drv, enc, dec
 
 CLAIM = {
     "technique": "Lean 4 theorems about a model of Golden::new/assert (world = file x env var) + exhaustive cross-product correspondence against the real okane_golden crate",
-    "text": ("Proof: the golden helper is modelled as pure functions over a world (file content, UPDATE_GOLDEN value at "
-             "new-time and at assert-time); theorems C20_compare / C20_readonly / C20_missing / C20_update / C20_env state the "
-             "property for all contents, all `got` strings and all environment values. The model is tied to golden/src/lib.rs "
+    "text": ("Proof: the golden helper is modelled as pure functions over a world (file content - text, not UTF-8, or a directory -, "
+             "whether the path can be written, UPDATE_GOLDEN value at new-time and at assert-time); theorems C20_compare / C20_readonly / "
+             "C20_missing / C20_update / C20_env state the property for all contents, all `got` strings and all environment values; "
+             "C20_update_pass_only_if_written (with UPDATE_GOLDEN set the helper never reports success unless the file then holds exactly "
+             "`got`), C20_update_unwritable (a write that cannot happen makes the assertion fail and changes nothing) and C20_directory "
+             "cover the worlds in which std::fs::write fails. The model is tied to golden/src/lib.rs "
              "by running the real crate in a scratch directory on the full cross product of file states x got strings x "
              "environment states and diffing verdict, file bytes and mtime against the model; the property's statement is "
              "also evaluated directly on the real code's behaviour."),
-    "note": "std::fs / std::env behaviour, UTF-8 decoding and the success of fs::write are modelled, not verified.",
+    "note": "std::fs / std::env behaviour and UTF-8 decoding are modelled, not verified; whether fs::write can succeed is a parameter of the world (missing parent directory and directory paths are exercised on the real file system, permission bits are not: the checks run as root).",
     "design_ref": "DESIGN.md section 6, C20",
 }
 
